@@ -16,8 +16,8 @@
 //!   * raised before the mark was set or after it was set to `done`: caught(...) or the same
 //!     error at the top of the query (no handler was active).
 //! Then, on the same machine, with the hook disarmed: cleanup, the follow-up battery and W
-//! itself must give their tabulated results, the setup_call_cleanup token log must be one of
-//! [] / [setup] / [setup,cleanup], and the control state (stack, trail, choice points, pending
+//! itself must give their tabulated results, the setup_call_cleanup token log must be a sublist of
+//! [setup,cleanup], and the control state (stack, trail, choice points, pending
 //! cleanup continuations, inference-limit stack) must equal that of an uninterrupted machine.
 
 use crate::engine::*;
@@ -140,7 +140,9 @@ fn followups(m: &mut Machine, w: &Workload) -> Vec<(String, String)> {
 }
 
 fn log_ok(s: &str) -> bool {
-    s == QOut::R("[]".into()).short() || s == QOut::R("[setup]".into()).short() || s == QOut::R("[setup,cleanup]".into()).short()
+    // any sublist of [setup, cleanup]: the workload's final retractall/1 can itself be interrupted
+    // after removing the first entry; a handler that ran twice or out of order is not accepted
+    ["[]", "[setup]", "[cleanup]", "[setup,cleanup]"].iter().any(|l| s == QOut::R(l.to_string()).short())
 }
 
 fn is_interrupt(t: &str) -> bool {
@@ -221,11 +223,19 @@ fn inject(m: &mut Machine, w: &Workload, q: &str, n: u64, base: &Base) -> (InjOu
             detail = format!("run_query gave {}", o.short());
         }
         QOut::Panic(p) => {
-            sig = Some(format!("panic:{}@{}", panic_loc(p), w.name));
-            detail = format!("interrupt at poll {n}: Rust panic: {p}");
+            sig = Some(format!("panic:{}", panic_loc(p)));
+            detail = format!("workload {}: interrupt at poll {n}: Rust panic: {p}", w.name);
         }
     }
     let mut usable = !dead;
+    if matches!(o, QOut::Err(_) | QOut::Exc(_)) {
+        // An exception that reaches the top of run_query is never cleared from the machine: every
+        // later query reports it again instead of its own answer (finding of C28). A caught
+        // throw/1 empties it; without this the follow-ups of an interrupt that landed outside the
+        // catch/3 (which the statement of C31 does not cover) would all fail for that reason.
+        let _ = run_first(m, "catch(throw(vf_cleanse), _, true).", &mut || {}, &mut || {});
+        classes.push("housekeeping:stale-top-level-ball-cleansed".into());
+    }
     if !dead {
         let got = followups(m, w);
         if got.iter().any(|(_, o)| o.starts_with("Panic")) {
@@ -250,7 +260,7 @@ fn inject(m: &mut Machine, w: &Workload, q: &str, n: u64, base: &Base) -> (InjOu
                 if !ok {
                     let what = if g.starts_with("Panic") { format!("panic:{}", panic_loc(g.trim_start_matches("Panic(\""))) } else { "wrong".into() };
                     sig = Some(format!("after-recovery:{name}:{what}@{}", w.name));
-                    detail = format!("after the interrupt at poll {n} ({outcome}, mark {mark}) the follow-up '{name}' gave {g}, expected {}", if *name == "log" { "[] | [setup] | [setup,cleanup]".to_string() } else { val.clone() });
+                    detail = format!("after the interrupt at poll {n} ({outcome}, mark {mark}) the follow-up '{name}' gave {g}, expected {}", if *name == "log" { "a sublist of [setup,cleanup]".to_string() } else { val.clone() });
                     break;
                 }
             }
